@@ -62,6 +62,7 @@ fn offset_class(off: u32) -> &'static str {
 struct World<'a> {
     http: &'a Http,
     config: &'a Config,
+    kit: &'a crate::fmtx::Kit,
 }
 
 fn judge(world: &World<'_>, case: &Case, rep_excl: &std::cell::RefCell<std::collections::BTreeMap<&'static str, u64>>, info: &mut CaseInfo) -> Verdict {
@@ -85,7 +86,7 @@ fn judge(world: &World<'_>, case: &Case, rep_excl: &std::cell::RefCell<std::coll
     let mut seen: std::collections::BTreeSet<&'static str> = Default::default();
 
     for (step, set) in case.sets.iter().enumerate() {
-        install(&history, world.config, set);
+        install_full(world.kit, &history, world.config, set);
         if issued.last() != Some(set) {
             issued.push(set.clone());
         }
@@ -237,6 +238,13 @@ fn judge(world: &World<'_>, case: &Case, rep_excl: &std::cell::RefCell<std::coll
         _ => "changes=6+",
     });
     info.class(if changes > keep { "history_overflowed" } else { "history_not_full" });
+    if issued.iter().any(|x| !x.aspas.is_empty()) {
+        info.class("with_aspas");
+        let twice = [64496u32, 64497].iter().any(|c| issued.windows(2).filter(|w| w[0].aspas.get(c) != w[1].aspas.get(c)).count() >= 2);
+        if twice {
+            info.class("aspa_customer_changed_in_2+_versions");
+        }
+    }
     info.nt(merged_served);
     Verdict::Pass
 }
@@ -244,7 +252,7 @@ fn judge(world: &World<'_>, case: &Case, rep_excl: &std::cell::RefCell<std::coll
 pub fn case_strategy(max_updates: usize) -> impl Strategy<Value = Case> {
     (
         prop::sample::select(vec![1usize, 2, 3, 10]),
-        history_strategy(1, max_updates + 1, 8, 30),
+        prop_oneof![history_strategy(1, max_updates + 1, 8, 30), history_strategy_aspa(1, max_updates + 1, 6, 25)],
         prop::collection::vec(prop_oneof![any::<u32>(), (0u32..64).prop_map(|d| 0u32.wrapping_sub(d)), (0u32..64).prop_map(|d| 0x8000_0000u32.wrapping_add(d))], 0..6),
         prop::collection::vec(prop_oneof![1u64..=u64::MAX, (1u64..1 << 20).prop_map(|d| d << 16)], 0..3),
     )
@@ -266,20 +274,20 @@ fn directed() -> Vec<(&'static str, Case)> {
 }
 
 pub fn run(ctx: &Ctx, rep: &mut Report, replay: Option<&serde_json::Value>) {
-    rep.rule("histories of 1..=41 (thorough 1..=121) validation results (30 % repeat the previous data set) over a universe of <= 8 origins/router keys, history-size in {1,2,3,10}, installed through SharedHistory::update + mark_update_done with SLURM assertions as data carrier; after EVERY step the client serials S+d for all boundary offsets d (0,-1..-(K+2),+1,+2,+3,2^31,2^31+-1..+-(K+1),2^32-1) plus generated random offsets are presented via PayloadSource::diff and GET /json-delta, with own and foreign sessions (own+-2^16 i.e. same RTR low bits, own+1, low 16 bits only, random); non-trivial = some query at distance >= 2 inside the window was answered with a non-empty merged delta; distinct by serialised case");
+    rep.rule("histories of 1..=41 (thorough 1..=121) validation results (30 % repeat the previous data set) over a universe of <= 8 origins/router keys (SLURM assertions) and, in half of the histories, ASPAs of two customers pushed through a real ValidationReport publication point, each customer's ASPA absent or one of four provider sets per step so that it is announced / updated / withdrawn repeatedly; history-size in {1,2,3,10}, installed through SharedHistory::update + mark_update_done ; after EVERY step the client serials S+d for all boundary offsets d (0,-1..-(K+2),+1,+2,+3,2^31,2^31+-1..+-(K+1),2^32-1) plus generated random offsets are presented via PayloadSource::diff and GET /json-delta, with own and foreign sessions (own+-2^16 i.e. same RTR low bits, own+1, low 16 bits only, random); non-trivial = some query at distance >= 2 inside the window was answered with a non-empty merged delta; distinct by serialised case");
     rep.assume("serials start at 0 in every session and the history is far shorter than 2^31, so 'issued' = client serial <= current serial; a server serial that has itself wrapped is not reachable through the public API (stated limitation of DESIGN C13)");
-    rep.assume("ASPAs cannot be installed through local exceptions; ASPA deltas/merges are covered at delta level by C11/C12");
     rep.assume("history-size 0 is excluded here (owned by C14)");
     let env = Env::new(ctx.scratch());
     let http = Http::new();
+    let kit = crate::fmtx::Kit::new();
     let configs: std::collections::BTreeMap<usize, Config> = [1usize, 2, 3, 10]
         .iter()
-        .map(|k| (*k, env.config(&[], &["--history".into(), k.to_string()]).unwrap_or_else(|e| panic!("config: {}", e))))
+        .map(|k| (*k, env.config(&[], &["--history".into(), k.to_string(), "--enable-aspa".into()]).unwrap_or_else(|e| panic!("config: {}", e))))
         .collect();
     let excl = std::cell::RefCell::new(std::collections::BTreeMap::new());
     let prop = |case: &Case, info: &mut CaseInfo| -> Verdict {
         let Some(config) = configs.get(&case.keep) else { return Verdict::Dropped("bad_keep".into()) };
-        judge(&World { http: &http, config }, case, &excl, info)
+        judge(&World { http: &http, config, kit: &kit }, case, &excl, info)
     };
     if let Some(v) = replay {
         let t: Tagged<Case> = serde_json::from_value(v.clone()).expect("replay");
